@@ -167,8 +167,11 @@ CHECKS = {
         "claim": "For every explored tree and schedule (10 policies incl. full deferral, LIFO, random, priority-inverted, waves; 1..16 threads; random worker assignment) the OpenMP executors left the tree bit-identical to the sequential one; every pair of tasks observed to touch the same cell/leaf object with a writer was ordered by the declared dependencies (so every linear extension of the observed graphs is conflict-free); no task read a dead variable (ASan) and overlapping tasks showed no data race (TSan).",
         "note": "Trusted: the shim's reading of the GOMP ABI (argument block copy, depend[] layout, priority) and of OpenMP task-dependence semantics; access sets are observed at cell/leaf granularity by the probe kernel. The Specx and StarPU executors run against API-compatible mock runtimes built on the same scheduler core (ASan builds in both tiers, TSan builds in the thorough tier); the mocks are our reading of the runtimes' documented contract, not the runtimes.",
         "jobs": [{"bin": "h_sched", "mode": "c03"}, {"bin": "h_sched_tsan", "mode": "c03"}, {"bin": "h_omp", "mode": "c03"}, {"bin": "h_specx", "mode": "c03"}, {"bin": "h_specx_tsan", "mode": "c03", "thorough_only": True},
-                 {"bin": "h_starpu", "mode": "c03"}, {"bin": "h_starpu_tsan", "mode": "c03", "thorough_only": True}],
-        "rule": "case = one random tree (Dim 1..3, Morton and periodic Morton, heights up to 5..8, small block sizes so that many tasks exist) executed by TbfOpenmpAlgorithm under a set of schedules: quick = each of the 10 policies with a random thread count in {1,2,3,4,8,16} + single-thread full deferral + a 16-thread wave; thorough = every policy x every thread count; TSan build = wave policies on 2..16 threads. non-trivial = more than 3 tasks per schedule; distinct = tree signature. Evidence counts tasks, declared edges, conflicting pairs checked, distinct execution orders, max overlap.",
+                 {"bin": "h_starpu", "mode": "c03"}, {"bin": "h_starpu_tsan", "mode": "c03", "thorough_only": True},
+                 # the target/source task executors are in this property's quantifier too: same engines, mode c09; only schedule-related keys of those runs are judged here
+                 {"bin": "h_sched", "mode": "c09"}, {"bin": "h_sched_tsan", "mode": "c09"}, {"bin": "h_omp", "mode": "c09"}, {"bin": "h_specx", "mode": "c09"}, {"bin": "h_starpu", "mode": "c09"}],
+        "key_filter": ["^c03", "^c09(-specx|-starpu)?:(odag|differs-from-sequential|kernel-instance|task-created)", "^(asan|ubsan|lsan|tsan|memcheck|assert|glibcxx-assert|abort|signal|hang|exit):"],
+        "rule": "also judged here: the schedule-related keys (O-dag, O-seq, kernel-instance ownership, sanitizers) of the target/source case sets (mode c09) of the same engines, and h_omp = the same executors on the real libgomp runtime with 1..16 threads (quick: {1, 16, one of 2/3/4/8} x 2 repetitions). case = one random tree (Dim 1..3, Morton and periodic Morton, heights up to 5..8, small block sizes so that many tasks exist) executed by TbfOpenmpAlgorithm under a set of schedules: quick = each of the 10 policies with a random thread count in {1,2,3,4,8,16} + single-thread full deferral + a 16-thread wave; thorough = every policy x every thread count; TSan build = wave policies on 2..16 threads. non-trivial = more than 3 tasks per schedule; distinct = tree signature. Evidence counts tasks, declared edges, conflicting pairs checked, distinct execution orders, max overlap.",
         "require_events": ["schedules-executed", "tasks-executed", "dag-conflicting-pairs-checked", "distinct-execution-orders"],
         "assumptions": ["task bodies are deterministic functions of the data they access (checked by observation: bit-identical results under all schedules)"],
     },
